@@ -36,6 +36,8 @@ NAMES = ["F", "G", "H", "X", "Y"]
 PARAMS = ["a", "b", "c"]
 OPS = ["+", "-", "*", "<", ">", "<<", ">>", "==", "!=", "&&", "||", "!", "~"]
 
+NOT_IN_GRAMMAR = {"++", "--", "->", "+=", "-=", "*=", "/=", "%=", "&=", "^=", "|=", "<<=", ">>=", "..."}
+
 # ---------------------------------------------------------------- reference pp-tokeniser
 
 PUNCT = ["...", "<<=", ">>=", "<<", ">>", "<=", ">=", "==", "!=", "&&", "||", "##", "->", "++", "--", "+=", "-=", "*=", "/=", "%=", "&=", "^=", "|=",
@@ -488,6 +490,11 @@ def judge_batch(cases, workdir):
             continue
         if gt != ct:
             out.append(("domain", "gcc!=clang"))
+            continue
+        if any(t in NOT_IN_GRAMMAR for t in gt):
+            # e.g. `+ ## +` -> `++`: the statement's grammar pastes identifiers and numbers; punctuators that can
+            # only arise from pasting operators are outside it
+            out.append(("domain", "pasted-punctuator-outside-grammar"))
             continue
         k, v = cbi_expand(table, inv)
         if k == "timeout":
